@@ -247,7 +247,7 @@ def pair_case(r):
 
 def pair_cases(ctx):
   cases = []
-  for i in range(ctx.n(220, 3000)):
+  for i in range(ctx.n(160, 3000)):
     got = pair_case(ctx.rng)
     if got is None:
       ctx.bump('pair:unrepresentable')
@@ -350,7 +350,7 @@ def recalc_case(r):
 
 def recalc_cases(ctx):
   cases = []
-  for i in range(ctx.n(80, 1200)):
+  for i in range(ctx.n(50, 1200)):
     got = recalc_case(ctx.rng)
     if got is None:
       ctx.bump('recalc:skipped')
